@@ -142,7 +142,11 @@ func (c exactEqualsComparator) lineStringsEq(ls1, ls2 LineString) bool {
 
 	// Next check if one ring is just the reversal of the other.
 	reversed := func(i int) int { return n - i - 1 }
-	areRings := ls1.IsRing() && ls2.IsRing()
+	// IsRing only considers XY values. A ring can only be compared under
+	// rotation if its final point repeats its first point in all dimensions
+	// (the final point of the rotated ring is never examined directly).
+	areRings := ls1.IsRing() && ls2.IsRing() &&
+		c.eq(c1.Get(0), c1.Get(n-1)) && c.eq(c2.Get(0), c2.Get(n-1))
 	if revEq := sameCurve(identity, reversed); revEq || !areRings {
 		return revEq
 	}
